@@ -245,4 +245,12 @@ def run(rep, prog, thorough):
         ok = len(calls) == 1 and fm.norm(calls[0].data[1][0]) in (fm.arg(dest), fm.norm(Ite(fm.arg(dest), fm.arg(dest), NONE)))
         rep.check(ok or (len(calls) == 1 and fm.arg(dest) in list(walk(fm.norm(calls[0].data[1][0])))), "C10.R1.id-normalisation",
                   "%s normalises the option value with processId" % fn, PT + fn, "processId(...)", "%s does not normalise the given id" % fn)
+    # a look-up finds a PEL whatever its type only because considerPEL sees the id in the Config (rule shared with C07)
+    from .c07 import check_lookups_recorded
+    from ..cli import Cli
+    cli = Cli(prog)
+    by_attr = {}
+    for attr, val, g, e in cli.config_stores():
+        by_attr.setdefault(attr, []).append((val, g, e))
+    check_lookups_recorded(rep, cli, by_attr, "C10.R5.lookup-bypasses-filter")
     rep.floor("obligations", len(rep.obligations), 15)
